@@ -294,6 +294,32 @@ def link_asan(obj_path, exe_path, extra_objs=(), wall_s=120):
     return run(args, wall_s=wall_s)
 
 
+def compile_asan_ir(src_file, exe_path, O=0, wall_s=180):
+    """asan_ir: kddp emits textual LLVM IR of the whole program (imported modules and list helpers linked in, not run through
+    LLVM's optimiser), every function definition gets the sanitize_address attribute, clang instruments and compiles it, and the
+    result is linked against the ASan+UBSan build of runtime and stdlib: red zones and use-after-free checks on every load/store
+    of the *generated* code. Returns (stage, Proc): stage 'ok' | 'kddp' | 'clang' | 'link'."""
+    base = os.path.splitext(exe_path)[0]
+    ll, lla, obj = base + ".ll", base + ".asan.ll", base + ".asan.o"
+    c = kddp_compile(src_file, ll, O=O, wall_s=wall_s)
+    if c.timed_out or c.rc != 0:
+        return "kddp", c
+    ndef = 0
+    with open(ll, errors="surrogateescape") as f, open(lla, "w", errors="surrogateescape") as g:
+        for line in f:
+            if line.startswith("define ") and line.rstrip().endswith("{"):
+                line = line.rstrip()[:-1] + "sanitize_address {\n"
+                ndef += 1
+            g.write(line)
+    c = run(["clang", "-fsanitize=address", "-O0", "-g0", "-Wno-override-module", "-c", lla, "-o", obj], wall_s=wall_s)
+    if c.timed_out or c.rc != 0 or ndef == 0:
+        return "clang", c
+    l = link_asan(obj, exe_path, wall_s=wall_s)
+    if l.timed_out or l.rc != 0:
+        return "link", l
+    return "ok", l
+
+
 # ------------------------------------------------------------------ evidence / replay / known findings
 
 def seed_from_env():
